@@ -70,7 +70,7 @@ impl Property for C01 {
         ctx.fingerprint = super::fingerprint(case, &feats);
     }
     fn rule() -> &'static str {
-        "proptest histories of operations that hand memory to the kernel (all buffer kinds implemented in interp/ops.rs), with drops at every life-cycle point, cancel-race outcomes and EINTR/ECANCELED re-issues. At SQE consumption the simulator decodes every user region the request designates and holds it in the tracking allocator until the final CQE is posted; any dealloc/realloc overlapping a held region, any region not in a live heap block or static memory, any change of the enclosing block, and any change of source bytes is a violation. Non-trivial = an operation with memory was dropped while running, or was re-issued. Distinct = distinct (ring class, feature set) fingerprints."
+        "proptest histories of operations that hand memory to the kernel (all buffer kinds implemented in interp/ops.rs), with drops at every life-cycle point, cancel-race outcomes and EINTR/ECANCELED re-issues. At SQE consumption the simulator decodes every user region the request designates and holds it in the tracking allocator until the final CQE is posted; any dealloc/realloc overlapping a held region, any region not in a live heap block or static memory, any change of the enclosing block, and any change of source bytes is a violation. Non-trivial = an operation with memory was dropped while running, or was re-issued. Distinct = distinct (ring class, feature set) fingerprints. One case in five runs the multi-completion driver instead (props/multi.rs): 1..4 operations among multishot accept, zero-copy send / send_vectored and plain write on a 2..8 entry ring; steps poll an operation (same or new waker), let the kernel post its next completion (multishot: a result with or without IORING_CQE_F_MORE, or a final error; zero-copy: the result with F_MORE, later the notification, or the early-failure form), Ring::poll, drop a future with a scripted cancel outcome, drop the Ring (also with a zero-copy notification outstanding, after which only futures are dropped and the kernel posts what it owes). There the C01 oracle is: every buffer block and the operation-state block stay allocated, at the same address, until the kernel has posted the operation's *last* completion (simulator holds per request + explicit liveness checks after every step); non-trivial (multi) = a future dropped between the two completions of a zero-copy send or after some multishot results."
     }
     fn assumptions() -> Vec<&'static str> {
         vec![SIM_ASSUMPTION, "regions are decoded per opcode from the UAPI (sim/regions.rs); an opcode missing from that table contributes only its operation-state block"]
@@ -98,7 +98,7 @@ impl Property for C02 {
         ctx.fingerprint = super::fingerprint(case, &feats);
     }
     fn rule() -> &'static str {
-        "proptest histories with several concurrently in-flight operations whose scripted results are unique per operation (counts, payload patterns, errnos); completions are posted in generated orders and batches with consumer polls in between. Reference model: Ready(v) is legal only after Ring::poll consumed that operation's final CQE and v must equal the independently decoded result; Pending after that is a lost result. Non-trivial = an operation completed while an earlier-submitted one was still in flight (completion order != submission order), or a multishot batch split by polls. Distinct = distinct (ring class, feature set) fingerprints."
+        "proptest histories with several concurrently in-flight operations whose scripted results are unique per operation (counts, payload patterns, errnos); completions are posted in generated orders and batches with consumer polls in between. Reference model: Ready(v) is legal only after Ring::poll consumed that operation's final CQE and v must equal the independently decoded result; Pending after that is a lost result. Non-trivial = an operation completed while an earlier-submitted one was still in flight (completion order != submission order), or a multishot batch split by polls. Distinct = distinct (ring class, feature set) fingerprints. One case in five runs the multi-completion driver instead (props/multi.rs): 1..4 operations among multishot accept, zero-copy send / send_vectored and plain write on a 2..8 entry ring; steps poll an operation (same or new waker), let the kernel post its next completion (multishot: a result with or without IORING_CQE_F_MORE, or a final error; zero-copy: the result with F_MORE, later the notification, or the early-failure form), Ring::poll, drop a future with a scripted cancel outcome, drop the Ring (also with a zero-copy notification outstanding, after which only futures are dropped and the kernel posts what it owes). There the C02 oracle is a per-operation FIFO of the completions Ring::poll has consumed: a multishot poll must yield exactly the front result (connection number or errno), Pending only when the FIFO is empty, the end exactly once and only after the final completion was consumed and everything was yielded; a zero-copy send resolves only after its notification was consumed, with the value of its first completion; non-trivial (multi) = >= 3 results of one operation queued or consumed in one Ring::poll, or a zero-copy send resolved."
     }
     fn assumptions() -> Vec<&'static str> {
         vec![SIM_ASSUMPTION]
@@ -146,7 +146,7 @@ impl Property for C03 {
         ctx.fingerprint = super::fingerprint(case, &feats);
     }
     fn rule() -> &'static str {
-        "C03a: proptest histories on 1..4-entry rings where every poll gets a counting waker (same or replaced); quiescence check after every Ring::poll: each operation whose final completion this call consumed and whose last poll returned Pending must have had the waker of that poll invoked; operations that returned Pending on a full queue must be woken (at least min(free slots, blocked)) by the Ring::poll after which slots are free. Non-trivial = a waker was replaced before a completion was consumed, or blocked operations were woken for queue space. Distinct = distinct (ring class, feature set) fingerprints."
+        "C03a: proptest histories on 1..4-entry rings where every poll gets a counting waker (same or replaced); quiescence check after every Ring::poll: each operation whose final completion this call consumed and whose last poll returned Pending must have had the waker of that poll invoked; operations that returned Pending on a full queue must be woken (at least min(free slots, blocked)) by the Ring::poll after which slots are free. Non-trivial = a waker was replaced before a completion was consumed, or blocked operations were woken for queue space. Distinct = distinct (ring class, feature set) fingerprints. C03b (2 of 5 cases, props/c03b.rs): 1..3 submitter threads poll 1..2 operations each (optionally a second time with a replaced waker) into a 1..4 entry queue primed to 0..2 free slots, while the ring thread runs 1..3 Ring::poll calls (optionally after the kernel completed what it had consumed), all under the baton scheduler following a generated choice tape; afterwards an executor re-polls only operations whose latest waker was invoked, first with the kernel completing nothing (a future waiting for queue space must be woken by Ring::poll alone once there is room), then with the kernel completing everything; a stall with free slots is a lost queue-space wake-up, a stall after every completion was consumed is a lost completion wake-up. Non-trivial (scheduled) = a context switch inside a10 and more operations than slots."
     }
     fn assumptions() -> Vec<&'static str> {
         vec![SIM_ASSUMPTION, "liveness is checked in its safety form (no ready-but-unwoken operation when Ring::poll returns), single thread; cross-thread schedules are the C03b sub-check"]
@@ -174,7 +174,7 @@ impl Property for C06 {
         ctx.fingerprint = super::fingerprint(case, &feats);
     }
     fn rule() -> &'static str {
-        "proptest histories with drops at every life-cycle point (unpolled, blocked on a full queue, queued, in flight, final posted, final consumed) crossed with scripted cancel-race outcomes (cancel wins / EALREADY / ENOENT) and full vs non-full queues. Oracle: the SQEs published by a drop are diffed against the model (exactly one ASYNC_CANCEL with addr = that operation's user_data, user_data 2, CQE_SKIP_SUCCESS, iff running and room; else none); the operation-state block and resources must be live until, and dead after, the Ring::poll that consumes the final completion (tracking allocator), never freed twice, nothing live at the end. Non-trivial = dropped while running and (cancel lost, or refused for lack of room, or completed after the drop). Distinct = distinct (ring class, feature set) fingerprints."
+        "proptest histories with drops at every life-cycle point (unpolled, blocked on a full queue, queued, in flight, final posted, final consumed) crossed with scripted cancel-race outcomes (cancel wins / EALREADY / ENOENT) and full vs non-full queues. Oracle: the SQEs published by a drop are diffed against the model (exactly one ASYNC_CANCEL with addr = that operation's user_data, user_data 2, CQE_SKIP_SUCCESS, iff running and room; else none); the operation-state block and resources must be live until, and dead after, the Ring::poll that consumes the final completion (tracking allocator), never freed twice, nothing live at the end. Non-trivial = dropped while running and (cancel lost, or refused for lack of room, or completed after the drop). Distinct = distinct (ring class, feature set) fingerprints. One case in five runs the multi-completion driver instead (props/multi.rs): 1..4 operations among multishot accept, zero-copy send / send_vectored and plain write on a 2..8 entry ring; steps poll an operation (same or new waker), let the kernel post its next completion (multishot: a result with or without IORING_CQE_F_MORE, or a final error; zero-copy: the result with F_MORE, later the notification, or the early-failure form), Ring::poll, drop a future with a scripted cancel outcome, drop the Ring (also with a zero-copy notification outstanding, after which only futures are dropped and the kernel posts what it owes). There the C06 oracle is the same SQE diff on drop (exactly one ASYNC_CANCEL for a running operation when there is room, none otherwise, none after the Ring is gone) and: state and resources of a dropped operation are live until, and dead after, the Ring::poll that consumes its final completion (not the first of two), never freed twice; non-trivial (multi) = dropped between two completions / after some results / completed after the drop."
     }
     fn assumptions() -> Vec<&'static str> {
         vec![SIM_ASSUMPTION]
